@@ -74,6 +74,63 @@ CHECKS = {
         'results compared with a Python evaluation of the predicate (ties as multisets, sampling by exact binomial bounds).',
         'note': 'Sampling is bounded (tail 1e-12), not decided. Empty lists and invalid numeric options not generated.',
     },
+    'C09': {
+        'category': 'exploration',
+        'technique': 'Hypothesis PBT: generated merge scenarios vs concatenated list/dict model',
+        'text': 'Generated merges of 1-5 stores of uneven sizes (three layouts incl. separately merged associated files, '
+        'identified or not, explicit lists in non-name order or numbered patterns, equal or differing species per input): '
+        'length, every index (so every seam), IndexError beyond the end, iteration, every id and an unknown id are '
+        'compared with the concatenation model; mismatching field sets / identifier mixes must be refused.',
+        'note': 'Trusted: netCDF4. Ids unique across inputs; input names distinct.',
+    },
+    'C10': {
+        'category': 'fault_enumeration',
+        'technique': 'stateful PBT with rejected-addition rules + exhaustive crash-point injection per generated merge scenario',
+        'text': '(a) the store state machine with five kinds of rejected addition at any position (first add, append sessions) '
+        'and add on read-only stores: the call must raise and the store must be unchanged (invariant + full rescan). '
+        '(b) for each generated merge scenario every file-system effect of a clean merge is recorded and the merge is re-run '
+        'with an injected OSError before and after each one (all crash points of that scenario), plus one refusal for each '
+        'of 8 validation rules; inputs must stay readable from either place, an openable output must be complete, and the '
+        'retry must succeed.',
+        'note': 'Crash model: a call raises before or after taking effect (no torn writes, no power loss). Interrupted merges may '
+        'be recovered by moving files back; refused merges must be retryable as they are.',
+    },
+    'C15': {
+        'category': 'exploration',
+        'technique': 'Hypothesis PBT against pyproj Geod inverse/forward as trusted geodesic primitive',
+        'text': 'Generated location pairs (antimeridian, polar, near-antipodal, same lat/lon, metres apart) and multi-waypoint '
+        'tracks: total length, point at distance d on the shortest geodesic (both partial distances and position), step == '
+        'location, overstep continues the same great circle, azimuth range and direction, refusals; Mission.gc_distance '
+        'equals the track length and is symmetric (synthetic and all shipped airport pairs).',
+        'note': 'Trusted: pyproj Geod(WGS84). Exactly antipodal pairs and azimuths at waypoints/poles excluded.',
+    },
+    'C16': {
+        'category': 'exploration',
+        'technique': 'Hypothesis PBT on harness-written ERA5-style files with affine wind fields (closed-form oracle) + metamorphic relations',
+        'text': 'Synthetic weather files (zero/uniform/affine/non-affine fields, with/without time axis, two-day directories); '
+        'ground speed compared with hypot(TAS sin h + u, TAS cos h + v), tail/head-wind, rotation invariance, bounds and '
+        'refusal outside the domain on all six sides.',
+        'note': 'One known finding (east/north components exchanged; the repair would change the value pinned by '
+        'tests/test_weather.py::test_compute_ground_speed); the check continues under that hypothesis and attributes any '
+        'other deviation to a different signature.',
+    },
+    'C19': {
+        'category': 'exploration',
+        'technique': 'Hypothesis differential PBT vs independent scalar BADA-3 implementation + integration invariants',
+        'text': 'Generated parameter sets for jet/turboprop/piston and flight profiles; thrust, drag, fuel flow, specific ground '
+        'range and the four iterate_flight_simulation variants are compared with a plain-Python reference of the BADA-3 '
+        'equations (rel 1e-9), plus anchor/monotonicity/per-step trapezoid/MTOW invariants on the returned vectors.',
+        'note': 'Parameter objects are built with the library\'s own Bada3AircraftParameters. Cases within 1e-9 of a branch are skipped.',
+    },
+    'C20': {
+        'category': 'exploration',
+        'technique': 'trace-driven deterministic scheduler: exhaustive DFS over line-level interleavings + Hypothesis sequential histories',
+        'text': 'Two real threads race to create their first store; a settrace hook stops each before every store.py source line '
+        'in the constructor guard and a controller enumerates all scheduling decisions by depth-first re-execution '
+        '(exhaustive at line granularity); exactly one attempt must succeed. Sequential histories over three threads '
+        '(create/close/drop) against the first-creator-owns model.',
+        'note': 'Line granularity, CPython with GIL; in-memory stores only (no HDF5 code runs concurrently).',
+    },
 }
 
 NOT_YET = {}
